@@ -3,7 +3,7 @@
    generated method is stored, the nested-builder condition and ValueSpec.attrs are the kernel K115a, read off
    /repo/mashumaro/core/meta/types/{pack,unpack,common}.py on this run. *)
 From Coq Require Import List String ZArith Bool.
-From Verif Require Import C15Model C15Proofs C15Site C15Holders.
+From Verif Require Import C15Model C15Proofs C15Site C15Holders C15Nailed.
 From VerifGen Require Import K115a.
 Import ListNotations.
 Open Scope string_scope.
@@ -66,6 +66,20 @@ Theorem C15_frame_history_holders : forall w ops,
   outs_w w ops = calls (w_env w) ops /\ wf (final_w w ops) /\ exists l, w_regs (final_w w ops) = (w_regs w ++ l)%list.
 Proof. exact frame_history_w. Qed.
 Print Assumptions C15_frame_history_holders.
+
+(* the mixin path's side of creation: executing class statements (mixin classes, subclasses, wrappers) installs methods
+   on the plain classes their nailed builders reach - computed by the model from the kernel's method location and
+   nested-builder condition - and never changes an in-domain call of either path, under any dialect *)
+Theorem C15_frame_class_statements : forall E mixins roots m o t v,
+  no_lookalike_union E t = true -> dialect_compat_o E o = true -> names_ok E = true -> exact E v t = true ->
+  run_pack_o (k_module_exec E mixins roots) m o t v = run_pack_o E m o t v.
+Proof. exact frame_class_statements. Qed.
+Print Assumptions C15_frame_class_statements.
+
+Example C15_class_statements_nonvacuous :
+  flags (k_module_exec E_n ["K3"] []) = [("K0", true); ("K1", false); ("K2", true); ("K3", true)] /\
+  flags (k_module_exec E_n [] [TUnion [TData "K1"; TInt]]) = [("K0", false); ("K1", true); ("K2", false); ("K3", false)].
+Proof. exact module_exec_example. Qed.
 
 Example C15_holders_nonvacuous :
   match create_codec (mkW E_h [] 0) (TList (TData "K2")) with
